@@ -77,6 +77,7 @@ def handleCase (xs : List Int) : String :=
             "chk=" ++ showVerdict (checkSssrV gn rings),
             "chkb=" ++ (if checkSssr gn rings then "1" else "0"),
             "ref=" ++ ref,
+            "minw=" ++ (if checkSssr gn rings then (if checkMinimalHorton gn rings then "1" else "0") else "-"),
             "ar=" ++ ";".intercalate ((sortByKey ar).map fun p => s!"{p.1}:" ++ "/".intercalate ((p.2.mergeSort lexLe).map commas)),
             "ars=" ++ ";".intercalate ((sortByKey ars).map fun p => s!"{p.1}:{commas (sortNats p.2)}"),
             "arom=" ++ (match aromaticRings m rings with
